@@ -58,6 +58,10 @@ M = [
     # ---- C13 crash safety
     ("c13-dump-in-place", "C13", "xonsh/history/json.py", "        try:\n            os.replace(tmpname, self.filename)\n        except Exception as err:", "        try:\n            with open(tmpname, encoding=\"utf-8\", newline=\"\\n\") as src, open(self.filename, \"w\", encoding=\"utf-8\", newline=\"\\n\") as dst:\n                dst.write(src.read())\n            os.remove(tmpname)\n        except Exception as err:"),
     ("c13-failed-write-still-replaces", "C13", "xonsh/history/json.py", "            print(f\"history: failed to write {tmpname!r}: {err}\", file=sys.stderr)\n            return\n", "            print(f\"history: failed to write {tmpname!r}: {err}\", file=sys.stderr)\n"),
+    # ---- C09 session conservation (pty layer: terminal ownership)
+    ("c09-end-keeps-terminal", "C09", "xonsh/procs/pipelines.py", "        self._end(tee_output=tee_output)\n        self._return_terminal()", "        self._end(tee_output=tee_output)"),
+    ("c09-failed-start-keeps-terminal", "C09", "xonsh/procs/pipelines.py", "                xt.print_exception()\n                self._return_terminal()", "                xt.print_exception()"),
+    ("c09-error-raise-keeps-terminal", "C09", "xonsh/procs/pipelines.py", "                raise subprocess.CalledProcessError(rtn, spec.args, output=self.output)\n            finally:\n                # needed to get a working terminal in interactive mode\n                self._return_terminal()\n            return", "                raise subprocess.CalledProcessError(rtn, spec.args, output=self.output)\n            finally:\n                pass\n            return"),
 ]
 
 
